@@ -35,3 +35,40 @@ func VH_C15_report_frame() {
 	vrt.Assert(r1 != first && r1.TemporalReport != first.TemporalReport && r1.TemporalReport.BaseReport != first.TemporalReport.BaseReport, "every report construction returns fresh report objects")
 	vrt.Assert(r1.MCValue == first.MCValue && r1.EnvironmentalScore == first.EnvironmentalScore && r1.SeverityValue == first.SeverityValue && r1.Vector == first.Vector, "building the report again yields the same fields")
 }
+
+// history-freedom of reports: building and exporting a report of one vector (any language) does not
+// change the report of another vector built afterwards.
+func VH_C15_report_history() {
+	s1 := vrt.Pick("S", "U", "C")
+	mc1 := vrt.Pick("MC", "X", "H", "L", "N")
+	ver2 := vrt.Pick("ver", "3.0", "3.1")
+	s2 := vrt.Pick("S", "U", "C")
+	e2 := vrt.Pick("E", "X", "H", "F", "P", "U")
+	ms2 := vrt.Pick("MS", "X", "U", "C")
+	mc2 := vrt.Pick("MC", "X", "H", "L", "N")
+	lang1 := vrt.Lang("lang1")
+	lang2 := vrt.Lang("lang2")
+	text := vrt.String("text")
+	if vrt.HistoryStep() {
+		em1, err1 := metric.NewEnvironmental().Decode("CVSS:3.0/AV:A/AC:H/PR:N/UI:N/S:" + s1 + "/C:L/I:H/A:H/E:P/RL:T/RC:U/CR:L/IR:H/AR:M/MAV:N/MAC:L/MPR:X/MUI:N/MS:X/MC:" + mc1 + "/MI:H/MA:L")
+		if err1 == nil {
+			r := NewEnvironmental(em1, WithOptionsLanguage(lang1))
+			_, _ = r.ExportWithString(text)
+			_ = NewTemporal(em1.TemporalMetrics(), WithOptionsLanguage(lang1))
+			_ = NewBase(em1.BaseMetrics())
+		}
+	}
+	em2, err := metric.NewEnvironmental().Decode("CVSS:" + ver2 + "/AV:N/AC:L/PR:L/UI:R/S:" + s2 + "/C:H/I:L/A:N/E:" + e2 + "/RL:W/RC:R/CR:H/IR:M/AR:L/MAV:A/MAC:X/MPR:H/MUI:R/MS:" + ms2 + "/MC:" + mc2 + "/MI:X/MA:N")
+	vrt.Observe("accepted", err == nil)
+	if err != nil {
+		return
+	}
+	rep := NewEnvironmental(em2, WithOptionsLanguage(lang2))
+	vrt.Observe("MCValue", rep.MCValue)
+	vrt.Observe("MSName", rep.MSName)
+	vrt.Observe("EnvironmentalScore", rep.EnvironmentalScore)
+	vrt.Observe("SeverityValue", rep.SeverityValue)
+	vrt.Observe("base SeverityValue", rep.TemporalReport.BaseReport.SeverityValue)
+	vrt.Observe("Vector", rep.Vector)
+	vrt.Observe("EValue", rep.EValue)
+}
